@@ -46,52 +46,81 @@ def run_cvc5(smt2, timeout_s):
 def discharge(hyps, goal, axioms=(), mode='default', both=False, timeout_ms=None, cvc5=True):
     """Try to prove  axioms /\\ hyps  =>  goal.
     Returns dict(status, backend, seconds, detail, model).
-      proved   - unsat
-      refuted  - sat with a model (default mode only: complete for the quantifier-free integer/record tier)
-      failed   - e-matching saturated without a proof (`unknown (incomplete quantifiers)`), no model
-      timeout  - resource limit in both back ends (undecided)"""
+      proved   - unsat (z3 or cvc5)
+      refuted  - sat with a counter-model
+      failed   - the e-matching proof search terminated (saturated) without a proof and neither z3's default
+                 strategy nor cvc5 found one within their budgets; no model
+      timeout  - resource limits only (undecided)"""
     timeout_ms = timeout_ms or Z3_TIMEOUT_MS
-    s = _solver(mode, timeout_ms)
-    for a in axioms:
-        s.add(a)
-    for h in hyps:
-        s.add(h)
-    s.add(z3.Not(goal))
     t0 = time.time()
-    r = s.check()
+    quantified = bool(axioms) or any(_has_quant(h) for h in hyps) or _has_quant(goal)
+    saturated, notes = False, []
+    s = None
+    if quantified or mode == 'ematch':
+        s = _solver('ematch', timeout_ms)
+        s.add(*axioms)
+        s.add(*hyps)
+        s.add(z3.Not(goal))
+        r = s.check()
+        if r == z3.unsat:
+            res = {'status': 'proved', 'backend': 'z3', 'seconds': time.time() - t0, 'model': None, 'detail': ''}
+            if both:
+                c, cs = run_cvc5(s.to_smt2(), CVC5_TIMEOUT_S)
+                res['detail'] = f'cvc5: {c} ({cs:.2f}s)'
+                if c == 'sat':
+                    res.update(status='failed', detail='back ends disagree: z3 unsat, cvc5 sat')
+            return res
+        if r == z3.sat:
+            return {'status': 'refuted', 'backend': 'z3', 'seconds': time.time() - t0, 'model': model_text(s.model()),
+                    'detail': 'z3 (e-matching): sat (counter-model)'}
+        reason = s.reason_unknown()
+        saturated = not ('timeout' in reason or 'canceled' in reason or 'resource' in reason)
+        notes.append(f'z3 e-matching: unknown ({reason})')
+    if mode != 'ematch' or not quantified:
+        s = _solver('default', min(timeout_ms, 10000) if quantified else timeout_ms)
+        s.add(*axioms)
+        s.add(*hyps)
+        s.add(z3.Not(goal))
+        r = s.check()
+        if r == z3.unsat:
+            res = {'status': 'proved', 'backend': 'z3', 'seconds': time.time() - t0, 'model': None, 'detail': ''}
+            if both:
+                c, cs = run_cvc5(s.to_smt2(), CVC5_TIMEOUT_S)
+                res['detail'] = f'cvc5: {c} ({cs:.2f}s)'
+                if c == 'sat':
+                    res.update(status='failed', detail='back ends disagree: z3 unsat, cvc5 sat')
+            return res
+        if r == z3.sat:
+            return {'status': 'refuted', 'backend': 'z3', 'seconds': time.time() - t0, 'model': model_text(s.model()),
+                    'detail': 'z3: sat (counter-model)'}
+        notes.append(f'z3 default: unknown ({s.reason_unknown()})')
+        if not quantified:
+            saturated = False
     secs = time.time() - t0
-    res = {'backend': 'z3', 'seconds': secs, 'model': None, 'detail': ''}
-    if r == z3.unsat:
-        res['status'] = 'proved'
-        if both:
-            c, cs = run_cvc5(s.to_smt2(), CVC5_TIMEOUT_S)
-            res['detail'] = f'cvc5: {c} ({cs:.2f}s)'
-            if c == 'sat':
-                res['status'] = 'failed'
-                res['detail'] = 'back ends disagree: z3 unsat, cvc5 sat'
-        return res
-    if r == z3.sat:
-        res['status'] = 'refuted'
-        res['model'] = model_text(s.model())
-        res['detail'] = 'z3: sat (counter-model)'
-        return res
-    reason = s.reason_unknown()
-    if not cvc5:
-        res['status'] = 'timeout' if ('timeout' in reason or 'canceled' in reason) else 'failed'
-        res['detail'] = f'z3: unknown ({reason})'
-        return res
-    # second back end
-    c, cs = run_cvc5(s.to_smt2(), CVC5_TIMEOUT_S if 'timeout' in reason or 'cancel' in reason else 20)
-    if c == 'unsat':
-        return {'status': 'proved', 'backend': 'cvc5', 'seconds': secs + cs, 'model': None,
-                'detail': f'z3: unknown ({reason}); cvc5: unsat'}
-    res['seconds'] = secs + cs
-    res['detail'] = f'z3: unknown ({reason}); cvc5: {c}'
-    if 'timeout' in reason or 'canceled' in reason or 'max. resource' in reason:
-        res['status'] = 'timeout' if c != 'sat' else 'refuted'
-    else:
-        res['status'] = 'failed'
-    return res
+    if cvc5:
+        c, cs = run_cvc5(s.to_smt2(), 10 if saturated else CVC5_TIMEOUT_S)
+        secs += cs
+        notes.append(f'cvc5: {c}')
+        if c == 'unsat':
+            return {'status': 'proved', 'backend': 'cvc5', 'seconds': secs, 'model': None, 'detail': '; '.join(notes)}
+        if c == 'sat':
+            return {'status': 'refuted', 'backend': 'cvc5', 'seconds': secs, 'model': None, 'detail': '; '.join(notes)}
+    return {'status': 'failed' if saturated else 'timeout', 'backend': 'z3', 'seconds': secs, 'model': None,
+            'detail': '; '.join(notes)}
+
+
+def _has_quant(f):
+    stack, seen = [f], set()
+    while stack:
+        t = stack.pop()
+        if t.get_id() in seen:
+            continue
+        seen.add(t.get_id())
+        if z3.is_quantifier(t):
+            return True
+        if z3.is_app(t):
+            stack.extend(t.children())
+    return False
 
 
 def satisfiable(hyps, axioms=(), mode='default', timeout_ms=2000):
